@@ -25,7 +25,7 @@ OTHER_FAULTS = ("mkdir_race", "crash", "interrupt", "scandir_eacces", "dump_enos
 # ---------------------------------------------------------------------------
 # generation
 # ---------------------------------------------------------------------------
-def generate(seed, tier="quick", faults=True, **kw):
+def generate(seed, tier="quick", faults=True, light=False, **kw):
     r = random.Random(seed)
     entry = r.choices(["cli", "files", "file", "io"], [40, 30, 18, 12])[0]
     single = r.random() < 0.12
@@ -78,6 +78,21 @@ def generate(seed, tier="quick", faults=True, **kw):
     plan = {"family": NAME, "seed": seed, "files": files, "secrets": secrets, "xdisk": xdisk, "opts": o,
             "entry": entry, "in": in_rel, "out": out_rel, "dump": dump, "knobs": knobs, "faults": [],
             "baseline": r.random() < 0.5}
+    if r.random() < 0.08 and not single and not light:
+        plan["pre_same_run"] = True        # library use: this process has already anonymized the same tree once, elsewhere
+    if dump and len(files) >= 2 and r.random() < 0.04 and not light:
+        # one file with several hundred distinct IPv6 addresses (memo growth), never the last one
+        big = files[0]
+        if big["lines"] and big["lines"][-1].get("eol", "\n") == "":
+            big["lines"][-1]["eol"] = "\n"
+        for _ in range(64):
+            big["lines"].append({"segs": [["lit", " permit ipv6"]] + [x for _ in range(16) for x in (
+                ["lit", " "], ["a6", "", None])], "eol": "\n"})
+        for ln in big["lines"]:
+            for sg in ln["segs"]:
+                if sg[0] == "a6" and sg[2] is None:
+                    v = (0x20010DB8 << 96) | r.getrandbits(96)
+                    sg[1], sg[2] = str(ipaddress.IPv6Address(v)), {"v": v}
     if entry in ("file", "io") and single and posixpath.dirname(out_rel) not in xdisk["dirs"]:
         xdisk["dirs"].append(posixpath.dirname(out_rel))
     if faults:
@@ -184,7 +199,19 @@ def build_world(plan, drop=()):
         disk["files"][p] = t.encode("latin-1") if isinstance(t, str) else t
     step = {"entry": plan["entry"], "opts": plan["opts"], "in": plan["in"], "out": plan["out"], "dump": plan["dump"]}
     sysfaults = [f for f in plan["faults"] if f["kind"] not in ("undecodable", "out_is_dir", "out_parent_is_file")]
-    return {"disk": disk, "procs": [{"knobs": plan["knobs"], "faults": sysfaults, "steps": [step]}]}
+    pre = []
+    if plan.get("pre_same_run") and not any(f["kind"] in ("crash", "interrupt") for f in sysfaults):
+        # ... either the same tree, or its lines in reverse order (other first-seen order of every secret and address)
+        pre_in = plan["in"]
+        if plan["knobs"].get("pid", 0) % 3 != 0:
+            rev = []
+            for f in reversed([f for f in plan["files"] if f["path"] not in drop and not f.get("hidden")]):
+                rev.extend(reversed([ln for ln in f["lines"] if not any(sg[0] == "bad" for sg in ln["segs"])]))
+            disk["files"]["other/pre-in/all.cfg"] = G.render_file([dict(ln, eol="\n") for ln in rev], "a", plan["secrets"])
+            pre_in = "other/pre-in"
+        pre = [{"kind": "run", "step": {"entry": ("files" if plan["knobs"].get("pid", 0) % 2 else "io"), "opts": plan["opts"],
+                                        "in": pre_in, "out": "other/pre-out", "dump": None}}]
+    return {"disk": disk, "procs": [{"knobs": plan["knobs"], "faults": sysfaults, "pre": pre, "steps": [step]}]}
 
 
 def _ancestors(p):
@@ -196,9 +223,11 @@ def _ancestors(p):
     return out
 
 
-def _input_order_from_trace(trace, in_rel):
+def _input_order_from_trace(trace, in_rel, after=0):
     order = []
     for seq, op, path, extra in trace:
+        if seq <= after:
+            continue
         if op == "open" and extra == "r" and (path == in_rel or path.startswith(in_rel + "/")):
             q = posixpath.normpath(path)
             if q not in order:
@@ -269,7 +298,10 @@ def check(plan):
         allowed |= _ancestors(m)
     if dump:
         allowed.add(dump)
+    pre_n = h.get("pre_nsys", 0)
     for seq, op, path in h["mutations"]:
+        if seq <= pre_n:
+            continue
         q = posixpath.normpath(path)
         if q == in_rel or q.startswith("in/") or q == "in":
             viol("C16", "input-touched", "syscall %d: %s on input path %r" % (seq, op, path))
@@ -283,9 +315,13 @@ def check(plan):
         if S1["files"].get(p) != S0["files"][p]:
             viol("C16", "input-changed", "input file %r differs after the run" % p)
     for p, data in S1["files"].items():
+        if p.startswith("other/"):
+            continue          # output of the earlier run in the same process (pre-history)
         if p not in S0["files"] and p not in allowed:
             viol("C16", "stray-file", "file %r was created; it mirrors no visible input file" % p)
     for d in S1["dirs"]:
+        if d == "other" or d.startswith("other/"):
+            continue
         if d not in S0["dirs"] and d not in allowed:
             viol("C16", "stray-dir", "directory %r was created" % d)
     for p, data in S0["files"].items():
@@ -303,7 +339,8 @@ def check(plan):
     # a run that was rejected up front (before any file was opened or anything written) makes no
     # further claim; an exception that escapes later is the run aborting on a file
     raised = step["outcome"].startswith("raised") or step["outcome"].startswith("exit")
-    touched = bool(h["mutations"]) or any(op == "open" for s_, op, p_, e_ in h["trace"])
+    pre_n0 = h.get("pre_nsys", 0)
+    touched = any(sq > pre_n0 for sq, o_, p_ in h["mutations"]) or any(op == "open" and s_ > pre_n0 for s_, op, p_, e_ in h["trace"])
     dump_fault_fired = any(f.get("dump") and f.get("fired") for f in h["faults"])
     rejected = raised and not touched
     if rejected:
@@ -315,9 +352,9 @@ def check(plan):
         finished = False
     # ---- processing order and progress ----------------------------------------
     if entry in ("cli", "files"):
-        order = [p for p in _input_order_from_trace(h["trace"], in_rel) if p in mirror]
+        order = [p for p in _input_order_from_trace(h["trace"], in_rel, h.get("pre_nsys", 0)) if p in mirror]
     elif entry == "file":
-        opened = set(_input_order_from_trace(h["trace"], in_rel))
+        opened = set(_input_order_from_trace(h["trace"], in_rel, h.get("pre_nsys", 0)))
         order = [p for p in (step.get("order") or []) if p in mirror and p in opened]
     else:
         order = [p for p in (step.get("order") or []) if p in mirror]
